@@ -74,6 +74,7 @@ type Dyn struct {
 	// JSON denotation and document generation (C11, C12)
 	Denote     func(data []byte) (elems []any, ok bool) // elements / pairs in the order PutAny must insert them
 	GenDoc     func(r *core.R, n int, dupKeys, dupVals bool) []byte
+	Wide       bool // built over a domain of hundreds of distinct elements
 	TotalOrder bool // the comparator(s) in use distinguish all elements of the domain (no ties between distinct elements)
 }
 
@@ -711,6 +712,9 @@ func dynFromMap[K comparable, V comparable](kind, family string, m maps.Map[K, V
 // build drives a Dyn into a state reached by a random history of about n
 // mutating calls.
 func (d *Dyn) build(c *core.Ctx, n int) {
+	if d.Wide && n > 0 {
+		n = n*20 + 200 // hundreds to a couple of thousand calls
+	}
 	for i := 0; i < n; i++ {
 		if c.R.Intn(4) == 0 {
 			d.Mutate(c)
@@ -726,6 +730,19 @@ func newDynRandom(c *core.Ctx, kind string, total bool) *Dyn {
 	r := c.R
 	cfg := drawCfg(r, total)
 	var d *Dyn
+	if r.Chance(1, 25) && kind != "BinaryHeap" && kind != "PriorityQueue" { // (the heap's Values() is quadratic in the level width)
+		// wide domains: with a few hundred distinct keys/elements the sets,
+		// maps and trees actually get large when built by a long history
+		c.Count("dyn:wide-domain", 1)
+		if isKV(kind) {
+			d = NewDyn(kind, IntDom(r.Range(150, 500)), IntDom(r.Range(150, 500)), cfg)
+		} else {
+			d = NewDyn(kind, IntDom(r.Range(150, 500)), IntDom(4), cfg)
+		}
+		d.Wide = true
+		c.Begin(kind, "New", d.Elem, d.Config, "wide")
+		return d
+	}
 	if isKV(kind) {
 		switch r.Intn(4) {
 		case 0:
